@@ -357,11 +357,45 @@ class InterpMixin(object):
         finally:
             self.depth -= 1
 
+    def lift(self, v, memo=None, depth=0):
+        """a REAL instance of a repo class (e.g. an AVP object sitting in a default argument) as an
+        interpreter object with the same fields; containers are lifted element-wise"""
+        memo = {} if memo is None else memo
+        if id(v) in memo:
+            return memo[id(v)]
+        if depth > 8:
+            return v
+        if isinstance(v, list):
+            out = []
+            memo[id(v)] = out
+            out.extend(self.lift(x, memo, depth + 1) for x in v)
+            return out
+        if isinstance(v, tuple) and not hasattr(v, "_fields"):
+            return tuple(self.lift(x, memo, depth + 1) for x in v)
+        cls = type(v)
+        if isinstance(v, (Sym, SObj, SExc, type)) or not self.eng.is_repo_class(cls) \
+                or isinstance(v, BaseException) or hasattr(v, "_fields"):
+            return v
+        if cls.__name__ in ("DiameterAvpLoader",) or cls.__module__.endswith("_internal_utils"):
+            return v
+        o = SObj(cls, has_dict=self.has_instance_dict(cls))
+        memo[id(v)] = o
+        for k in cls.__mro__:
+            for sname in getattr(k, "__slots__", ()) if isinstance(getattr(k, "__slots__", ()), (tuple, list)) else ():
+                try:
+                    o.slots[sname] = self.lift(object.__getattribute__(v, sname), memo, depth + 1)
+                except AttributeError:
+                    pass
+        if o.idict is not None:
+            for kk, x in getattr(v, "__dict__", {}).items():
+                o.idict[kk] = self.lift(x, memo, depth + 1)
+        return o
+
     def bind_args(self, a, fn, args, kwargs, defaults=None, kwdefaults=None, fname=None):
         fname = fname or (fn.__name__ if fn is not None else "<fn>")
         if defaults is None:
-            defaults = list(fn.__defaults__ or ())
-            kwdefaults = dict(fn.__kwdefaults__ or {})
+            defaults = [self.lift(d) for d in (fn.__defaults__ or ())]
+            kwdefaults = {k: self.lift(d) for k, d in (fn.__kwdefaults__ or {}).items()}
         pos = [p.arg for p in a.posonlyargs] + [p.arg for p in a.args]
         locs = {}
         args = list(args)
